@@ -105,6 +105,25 @@ class StatsRun:
         for a in self.pubs:
             if a.req_id == 0:
                 a.learn_id()
+        # sometimes a module of this very process takes part through the public client API: the process id it
+        # reports is whatever os.getpid() says when it connects
+        self.real_client = None
+        if ch.flag("cfg.real_client", 1, 4):
+            import pyrtma
+            from pyrtma.exceptions import ClientError
+            c = pyrtma.Client(module_id=40, timecode=w.timecode)
+            w.register_client_logger(c)
+            try:
+                c.connect(f"127.0.0.1:{w.PORT}")
+                c.send_module_ready()
+                w.quiesce()
+                self.real_client = c
+                import pyrtma.client as _pc
+                self.real_pid = _pc.os.getpid()
+                self.real_client_since = w.net.seq
+                self.res.probes["real_client_pid"] += 1
+            except ClientError:
+                c._connected = False
         self.view_seq = w.net.seq
         self.view_t = w.clock.now
         # optional ordinary subscribers, so forwarding really fans out
@@ -238,6 +257,8 @@ class StatsRun:
             res.round_sigs = set(w.net.round_sigs)
             res.n_choices = len(self.ch.trace)
             res.nontrivial = True
+            if getattr(self, "real_client", None) is not None:
+                self.real_client._connected = False     # (its __del__ must not talk to a manager that is gone)
             w.teardown()
         return res
 
@@ -348,6 +369,8 @@ class StatsRun:
                 if wfr.seq <= until and a.mod_id and a.mod_id < 200:
                     want_pids.setdefault(a.mod_id, set()).update(p for (_s, _d, p) in a.pid_hist)
             want_pids.setdefault(90, set()).add(9090)
+            if self.real_client is not None and wfr.seq > self.real_client_since and self.real_client.connected:
+                want_pids.setdefault(40, set()).add(self.real_pid)
             for mid, ps in want_pids.items():
                 if ps and pids[mid] not in ps:
                     res.add("C18", "timing_pid", f"TIMING_MESSAGE ModulePID[{mid}]={pids[mid]}, module pid is {sorted(ps)}")
